@@ -634,8 +634,8 @@ theorem pickArm_sound (known : List KNode) (p : MPeer) :
     | .reused => ∃ k, lookupKnown known p.node.id = some k ∧ pickNode known p = k ∧ k.addr = p.addr ∧
         k.enabled = p.accepted
     | .inherited => ∃ k, lookupKnown known p.node.id = some k ∧ p.accepted = true ∧ k.enabled = true ∧ k.addr ≠ p.addr ∧
-        pickNode known p = ⟨⟨k.node.id, k.node.dc, k.node.rack⟩, p.addr, true⟩
-    | .fresh => pickNode known p = ⟨p.node, p.addr, p.accepted⟩ := by
+        pickNode known p = ⟨⟨k.node.id, k.node.dc, k.node.rack⟩, p.addr, true, k.pool⟩
+    | .fresh => pickNode known p = ⟨p.node, p.addr, p.accepted, p.accepted⟩ := by
   cases ha : p.accepted with
   | false =>
     cases hl : lookupKnown known p.node.id with
@@ -649,7 +649,7 @@ theorem pickArm_sound (known : List KNode) (p : MPeer) :
         simp only [Bool.and_eq_true, decide_eq_true_eq, Bool.not_eq_true'] at hc
         exact ⟨k, rfl, h2, hc.2, hc.1.1.1⟩
       · have h1 : pickArm known p = .fresh := by simp only [pickArm, ha, hl, hc]; rfl
-        have h2 : pickNode known p = ⟨p.node, p.addr, false⟩ := by simp only [pickNode, ha, hl, hc]; rfl
+        have h2 : pickNode known p = ⟨p.node, p.addr, false, false⟩ := by simp only [pickNode, ha, hl, hc]; rfl
         rw [h1]; exact h2
   | true =>
     cases hl : lookupKnown known p.node.id with
@@ -663,14 +663,49 @@ theorem pickArm_sound (known : List KNode) (p : MPeer) :
           simp only [Bool.and_eq_true, decide_eq_true_eq] at hc
           exact ⟨k, rfl, h2, haddr, hc.1.1⟩
         · have h1 : pickArm known p = .inherited := by simp only [pickArm, ha, hl, hc, haddr, if_true, if_false]
-          have h2 : pickNode known p = ⟨⟨k.node.id, k.node.dc, k.node.rack⟩, p.addr, true⟩ := by
+          have h2 : pickNode known p = ⟨⟨k.node.id, k.node.dc, k.node.rack⟩, p.addr, true, k.pool⟩ := by
             simp only [pickNode, ha, hl, hc, haddr, if_true, if_false]
           rw [h1]
           simp only [Bool.and_eq_true, decide_eq_true_eq] at hc
           exact ⟨k, rfl, rfl, hc.1.1, haddr, h2⟩
       · have h1 : pickArm known p = .fresh := by simp only [pickArm, ha, hl, hc]; rfl
-        have h2 : pickNode known p = ⟨p.node, p.addr, true⟩ := by simp only [pickNode, ha, hl, hc]; rfl
+        have h2 : pickNode known p = ⟨p.node, p.addr, true, true⟩ := by simp only [pickNode, ha, hl, hc]; rfl
         rw [h1]; exact h2
+
+/-- **A node has a connection pool iff the host filter accepted it in the last refresh.**  In production
+`is_enabled()` IS `pool.is_some()` (`enabled = pool` for every known node); then every arm yields a node whose
+pool presence — and enabled-ness — equals the filter's verdict on the peer: a filtered-out node never keeps or
+gets a pool, an accepted one always has one.  The invariant is preserved (second conjunct), so this holds after
+every refresh of every history that starts from it (`ClusterState::new` starts from no known nodes). -/
+theorem pickNode_pool_iff_accepted (known : List KNode) (hinv : ∀ k ∈ known, k.enabled = k.pool) (p : MPeer) :
+    (pickNode known p).pool = p.accepted ∧ (pickNode known p).enabled = (pickNode known p).pool := by
+  have hk : ∀ k, lookupKnown known p.node.id = some k → k.enabled = k.pool :=
+    fun k h => hinv k (List.mem_of_find?_eq_some h)
+  unfold pickNode
+  cases ha : p.accepted <;> cases hl : lookupKnown known p.node.id with
+  | none => simp
+  | some k =>
+    have := hk k hl
+    simp only []
+    split
+    · rename_i hc
+      first
+        | (split
+           · simp only [Bool.and_eq_true, decide_eq_true_eq] at hc
+             exact ⟨by rw [← this]; exact hc.1.1, this⟩
+           · simp only [Bool.and_eq_true, decide_eq_true_eq] at hc
+             exact ⟨by simp only []; rw [← this]; exact hc.1.1, by simp only []; rw [← this]; exact hc.1.1.symm⟩)
+        | (simp only [Bool.and_eq_true, decide_eq_true_eq, Bool.not_eq_true'] at hc
+           exact ⟨by rw [← this]; exact hc.1.1.1, this⟩)
+    · simp
+
+/-- The production invariant `enabled = pool` survives `calculate_new_topology`. -/
+theorem newTopology_pool_invariant (known : List KNode) (hinv : ∀ k ∈ known, k.enabled = k.pool) (peers : List MPeer) :
+    ∀ k ∈ (newTopology known peers).1, k.enabled = k.pool := by
+  intro k hk
+  unfold newTopology at hk
+  obtain ⟨p, _, rfl⟩ := List.mem_map.mp hk
+  exact (pickNode_pool_iff_accepted known hinv p).2
 
 /-- The ring entries after a refresh are those of the new metadata alone. -/
 theorem newTopology_entries (known : List KNode) (peers : List MPeer) :
@@ -754,6 +789,24 @@ theorem refresh_depends_on_last_metadata_only (st : CState) (peers : List MPeer)
       (st.refresh peers (fetchedOk ks)).keyspaces = ks := by
   simp only [CState.refresh, CState.fresh, newTopology_entries, resolve_fetchedOk]; exact ⟨trivial, trivial⟩
 
+/-- **Node identity is the host id, never the address.**  The locator is a function of the peers' nodes (host id,
+datacenter, rack) and tokens alone: two metadata snapshots that differ only in the ADDRESSES of the peers (any
+assignment, including several nodes sharing one address — nodes behind one NAT / proxy address — and nodes
+whose address changed) and in the host filter's verdicts give the same locator, from scratch and after any
+refresh from any two previous states.  (`Node` of the model has no address field; `unique()` and the `HashSet` of
+the ring-ordered view compare `Node`s, i.e. host ids — `Model/Ring.lean`.) -/
+theorem address_irrelevant (peers peers' : List MPeer) (h : toTopology peers = toTopology peers') (f : Fetched)
+    (st st' : CState) (hk : st.keyspaces = st'.keyspaces) :
+    (CState.fresh peers f).loc = (CState.fresh peers' f).loc ∧
+    (st.refresh peers f).loc = (st'.refresh peers' f).loc ∧
+    (st.refreshTopology peers).loc = (st'.refreshTopology peers').loc := by
+  simp only [CState.fresh, CState.refresh, CState.refreshTopology, newTopology_entries, h, hk]
+  exact ⟨trivial, trivial, trivial⟩
+
+-- three token owners with one address and another with none of its own: same topology as with distinct addresses
+example : toTopology [⟨⟨1, some 0, some 0⟩, 7, [10], false⟩, ⟨⟨2, some 0, some 1⟩, 7, [20], true⟩, ⟨⟨3, some 0, some 1⟩, 7, [30], true⟩] =
+    toTopology [⟨⟨1, some 0, some 0⟩, 0, [10], true⟩, ⟨⟨2, some 0, some 1⟩, 1, [20], false⟩, ⟨⟨3, some 0, some 1⟩, 2, [30], false⟩] := rfl
+
 /-- The locator of a freshly built state is `locOf` of the sorted ring of the metadata: all theorems above apply
 to it. -/
 theorem fresh_locator (peers : List MPeer) (ks : Keyspaces) :
@@ -767,12 +820,12 @@ example : resolveKeyspaces [(0, some (.simple 2)), (1, none), (2, none)] [(0, .s
 -- non-vacuity: node 2 moves from rack 1 to rack 0 and node 3 changes address; all reuse arms are taken and the
 -- chosen objects carry the new placement; a guard that ignored the rack would keep `some 1` for node 2
 example :
-    let known : List KNode := [⟨⟨1, some 0, some 0⟩, 1, false⟩, ⟨⟨2, some 0, some 1⟩, 2, false⟩,
-                               ⟨⟨3, some 0, some 1⟩, 3, true⟩, ⟨⟨4, some 0, some 2⟩, 4, true⟩]
-    (pickNode known ⟨⟨1, some 0, some 0⟩, 1, [10], false⟩) = ⟨⟨1, some 0, some 0⟩, 1, false⟩ ∧   -- reused (disabled)
+    let known : List KNode := [⟨⟨1, some 0, some 0⟩, 1, false, false⟩, ⟨⟨2, some 0, some 1⟩, 2, false, false⟩,
+                               ⟨⟨3, some 0, some 1⟩, 3, true, true⟩, ⟨⟨4, some 0, some 2⟩, 4, true, true⟩]
+    (pickNode known ⟨⟨1, some 0, some 0⟩, 1, [10], false⟩) = ⟨⟨1, some 0, some 0⟩, 1, false, false⟩ ∧   -- reused (disabled)
     (pickNode known ⟨⟨2, some 0, some 0⟩, 2, [20], false⟩).node.rack = some 0 ∧                   -- rack changed: new
-    (pickNode known ⟨⟨3, some 0, some 1⟩, 9, [30], true⟩) = ⟨⟨3, some 0, some 1⟩, 9, true⟩ ∧     -- address changed: inherited
-    (pickNode known ⟨⟨4, some 0, some 2⟩, 4, [40], true⟩) = ⟨⟨4, some 0, some 2⟩, 4, true⟩ ∧     -- reused (enabled)
+    (pickNode known ⟨⟨3, some 0, some 1⟩, 9, [30], true⟩) = ⟨⟨3, some 0, some 1⟩, 9, true, true⟩ ∧     -- address changed: inherited
+    (pickNode known ⟨⟨4, some 0, some 2⟩, 4, [40], true⟩) = ⟨⟨4, some 0, some 2⟩, 4, true, true⟩ ∧     -- reused (enabled)
     (pickNode known ⟨⟨4, some 0, some 0⟩, 4, [40], true⟩).node.rack = some 0 := by decide       -- rack changed: new
 
 end refresh
